@@ -85,7 +85,15 @@ theorem clearOf_not_touches (reach : List (Nat × Hash)) (op : TOp) (h : ClearOf
 theorem clearOf_not_hdr (reach : List (Nat × Hash)) (op : TOp) (h : ClearOf reach op) (k : Nat) : ¬ isHdrOn op k := by
   cases op <;> simp_all [ClearOf, isHdrOn]
 
-/-- the invariant of accepted traces -/
+theorem pendClearB_spec (reach : List (Nat × Hash)) (op : TOp) (h : pendClearB reach op = true) : ClearOf reach op := by
+  cases op with
+  | write p _ => simpa [pendClearB, ClearOf] using h
+  | trunc n => simpa [pendClearB, ClearOf] using h
+  | hdr _ _ _ => simp [pendClearB] at h
+  | sync => simp [pendClearB] at h
+
+/-- the invariant of accepted traces. While a header is in flight the pending list is that header
+    write preceded by operations that stay clear of the committed AND of the new state -/
 structure Safe (reachOf : Nat → List (Nat × Hash)) (c : Cfg) : Prop where
   slotLe : c.aSlot ≤ 1
   active : c.durable.slots c.aSlot = some (c.aTx, c.aSt)
@@ -93,7 +101,9 @@ structure Safe (reachOf : Nat → List (Nat × Hash)) (c : Cfg) : Prop where
   intact : ∀ p h, (p, h) ∈ reachOf c.aSt → c.durable.pages p = some h
   quiet : c.inflight = none → ∀ op ∈ c.pending, ClearOf (reachOf c.aSt) op
   infl : ∀ st, c.inflight = some st →
-    c.pending = [.hdr (1 - c.aSlot) (c.aTx + 1) st] ∧ ∀ p h, (p, h) ∈ reachOf st → c.durable.pages p = some h
+    (∃ old, c.pending = old ++ [.hdr (1 - c.aSlot) (c.aTx + 1) st] ∧
+      ∀ op ∈ old, ClearOf (reachOf c.aSt) op ∧ ClearOf (reachOf st) op) ∧
+    ∀ p h, (p, h) ∈ reachOf st → c.durable.pages p = some h
 
 theorem intactB_spec (reachOf : Nat → List (Nat × Hash)) (pages : Nat → Option Hash) (st : Nat)
     (h : intactB reachOf pages st = true) : ∀ p hh, (p, hh) ∈ reachOf st → pages p = some hh := by
@@ -102,9 +112,174 @@ theorem intactB_spec (reachOf : Nat → List (Nat × Hash)) (pages : Nat → Opt
   have := List.all_eq_true.mp h (p, hh) hm
   simpa using this
 
+/-- recovery on an image whose active slot holds (tx, st) and whose other slot is older or invalid -/
+theorem recover_active (i : Img) (a : Nat) (ha : a ≤ 1) (tx st : Nat) (h1 : i.slots a = some (tx, st))
+    (h2 : ∀ t s, i.slots (1 - a) = some (t, s) → t < tx) : recover i = some st := by
+  have : a = 0 ∨ a = 1 := by omega
+  rcases this with rfl | rfl
+  · simp only [Nat.sub_zero] at h2
+    unfold recover
+    rw [h1]
+    cases h : i.slots 1 with
+    | none => rfl
+    | some r => obtain ⟨t, s⟩ := r; have := h2 t s h; simp [this]
+  · simp only [Nat.sub_self] at h2
+    unfold recover
+    rw [h1]
+    cases h : i.slots 0 with
+    | none => rfl
+    | some r =>
+      obtain ⟨t, s⟩ := r
+      have := h2 t s h
+      have hn : ¬ tx < t := by omega
+      simp [hn]
+
+/-! ### images -/
+
+/-- what the protocol guarantees about a (durable or crash) image: slot `a` holds the committed
+    header `(tx, st)`, the other slot is invalid, older, or holds the header `(tx + 1, s)` of the
+    attempt `g = some s`; the committed state and the attempted state are complete -/
+structure ImgOk (reachOf : Nat → List (Nat × Hash)) (a tx st : Nat) (g : Option Nat) (d : Img) : Prop where
+  active : d.slots a = some (tx, st)
+  other : ∀ t s, d.slots (1 - a) = some (t, s) → t < tx ∨ (t = tx + 1 ∧ g = some s)
+  intact : ∀ p h, (p, h) ∈ reachOf st → d.pages p = some h
+  intactG : ∀ s, g = some s → ∀ p h, (p, h) ∈ reachOf s → d.pages p = some h
+
+/-- a pending operation that keeps `ImgOk`: a page operation clear of the committed state and of the
+    attempted state, or a header write into the other slot carrying an older header (restore) or
+    the header of the attempt -/
+def POk (reachOf : Nat → List (Nat × Hash)) (a tx st : Nat) (g : Option Nat) (op : TOp) : Prop :=
+  (ClearOf (reachOf st) op ∧ ∀ s, g = some s → ClearOf (reachOf s) op) ∨
+  ∃ t s, op = .hdr (1 - a) t s ∧ (t < tx ∨ (t = tx + 1 ∧ g = some s))
+
+theorem imgOk_apply {reachOf : Nat → List (Nat × Hash)} {a tx st : Nat} {g : Option Nat} {d : Img} {op : TOp}
+    (ha : a ≤ 1) (h : ImgOk reachOf a tx st g d) (hop : POk reachOf a tx st g op) :
+    ImgOk reachOf a tx st g (applyOp d op) ∧ ImgOk reachOf a tx st g (tearOp d op) := by
+  rcases hop with ⟨hcl, hclg⟩ | ⟨t, s, rfl, hts⟩
+  · have hnh := fun k => clearOf_not_hdr _ op hcl k
+    have hnt := fun p hh hm => clearOf_not_touches _ op hcl p hh hm
+    have hntg := fun s hs p hh hm => clearOf_not_touches _ op (hclg s hs) p hh hm
+    constructor
+    · refine ⟨?_, ?_, ?_, ?_⟩
+      · rw [applyOp_slots _ _ _ (hnh _)]; exact h.active
+      · intro t s; rw [applyOp_slots _ _ _ (hnh _)]; exact h.other t s
+      · intro p hh hm; rw [applyOp_pages _ _ _ (hnt p hh hm)]; exact h.intact p hh hm
+      · intro s hs p hh hm; rw [applyOp_pages _ _ _ (hntg s hs p hh hm)]; exact h.intactG s hs p hh hm
+    · refine ⟨?_, ?_, ?_, ?_⟩
+      · rw [tearOp_slots _ _ _ (hnh _)]; exact h.active
+      · intro t s; rw [tearOp_slots _ _ _ (hnh _)]; exact h.other t s
+      · intro p hh hm; rw [tearOp_pages _ _ _ (hnt p hh hm)]; exact h.intact p hh hm
+      · intro s hs p hh hm; rw [tearOp_pages _ _ _ (hntg s hs p hh hm)]; exact h.intactG s hs p hh hm
+  · have hne : ¬ (a = 1 - a) := by omega
+    constructor
+    · refine ⟨?_, ?_, h.intact, h.intactG⟩
+      · simp only [applyOp, hne, if_false]; exact h.active
+      · intro t' s'
+        simp only [applyOp, if_true, Option.some.injEq, Prod.mk.injEq]
+        intro ⟨e1, e2⟩; subst e1 e2; exact hts
+    · refine ⟨?_, ?_, h.intact, h.intactG⟩
+      · simp only [tearOp, hne, if_false]; exact h.active
+      · intro t' s'; simp [tearOp]
+
+theorem imgOk_crash {reachOf : Nat → List (Nat × Hash)} {a tx st : Nat} {g : Option Nat} (ha : a ≤ 1)
+    {d : Img} {ops : List TOp} {i : Img} (hc : CrashImg d ops i) (h : ImgOk reachOf a tx st g d)
+    (hops : ∀ op ∈ ops, POk reachOf a tx st g op) : ImgOk reachOf a tx st g i := by
+  induction hc with
+  | nil d => exact h
+  | keep _ ih =>
+    exact ih (imgOk_apply ha h (hops _ List.mem_cons_self)).1 (fun o ho => hops o (List.mem_cons_of_mem _ ho))
+  | drop _ ih => exact ih h (fun o ho => hops o (List.mem_cons_of_mem _ ho))
+  | tear _ ih =>
+    exact ih (imgOk_apply ha h (hops _ List.mem_cons_self)).2 (fun o ho => hops o (List.mem_cons_of_mem _ ho))
+
+/-- a completed sync is one of the crash outcomes (everything kept) -/
+theorem crashImg_foldl (ops : List TOp) : ∀ d : Img, CrashImg d ops (ops.foldl applyOp d) := by
+  induction ops with
+  | nil => intro d; exact .nil d
+  | cons op ops ih => intro d; exact .keep (ih _)
+
+/-- nothing kept is one of the crash outcomes too -/
+theorem crashImg_none (ops : List TOp) : ∀ d : Img, CrashImg d ops d := by
+  induction ops with
+  | nil => intro d; exact .nil d
+  | cons op ops ih => intro d; exact .drop (ih _)
+/-- recovery on an `ImgOk` image: the committed state, or the attempt -/
+theorem recover_imgOk {reachOf : Nat → List (Nat × Hash)} {a tx st : Nat} {g : Option Nat} (ha : a ≤ 1) {i : Img}
+    (h : ImgOk reachOf a tx st g i) :
+    ∃ r, recover i = some r ∧ (r = st ∨ g = some r) ∧ ∀ p hh, (p, hh) ∈ reachOf r → i.pages p = some hh := by
+  cases ho : i.slots (1 - a) with
+  | none =>
+    exact ⟨st, recover_active i a ha tx st h.active (by intro t s e; rw [ho] at e; cases e), Or.inl rfl, h.intact⟩
+  | some r =>
+    obtain ⟨t, s⟩ := r
+    rcases h.other t s ho with hlt | ⟨ht, hg⟩
+    · refine ⟨st, recover_active i a ha tx st h.active ?_, Or.inl rfl, h.intact⟩
+      intro t' s' e; rw [ho] at e; cases e; exact hlt
+    · refine ⟨s, recover_active i (1 - a) (by omega) t s ho ?_, Or.inr hg, h.intactG s hg⟩
+      have : 1 - (1 - a) = a := by omega
+      intro t' s' e; rw [this, h.active] at e; cases e; omega
+
+/-- an `ImgOk` image is a safe starting point (reopen after a crash or after closing the file) -/
+theorem imgOk_restart {reachOf : Nat → List (Nat × Hash)} {a tx st : Nat} {g : Option Nat} (ha : a ≤ 1) {i : Img}
+    (h : ImgOk reachOf a tx st g i) :
+    ∃ a' tx' st', recover i = some st' ∧ (st' = st ∨ g = some st') ∧
+      Safe reachOf { durable := i, pending := [], aSlot := a', aTx := tx', aSt := st', inflight := none } := by
+  have hold : (∀ t s, i.slots (1 - a) = some (t, s) → t < tx) →
+      ∃ a' tx' st', recover i = some st' ∧ (st' = st ∨ g = some st') ∧
+        Safe reachOf { durable := i, pending := [], aSlot := a', aTx := tx', aSt := st', inflight := none } :=
+    fun ho => ⟨a, tx, st, recover_active i a ha tx st h.active ho, Or.inl rfl,
+      ⟨ha, h.active, ho, h.intact, (fun _ _ ho => by cases ho), nofun⟩⟩
+  cases ho : i.slots (1 - a) with
+  | none => exact hold (by intro t s e; rw [ho] at e; cases e)
+  | some r =>
+    obtain ⟨t, s⟩ := r
+    rcases h.other t s ho with hlt | ⟨ht, hg⟩
+    · exact hold (by intro t' s' e; rw [ho] at e; cases e; exact hlt)
+    · have hsl : 1 - (1 - a) = a := by omega
+      have hoth : ∀ t' s', i.slots (1 - (1 - a)) = some (t', s') → t' < t := by
+        intro t' s' e; rw [hsl, h.active] at e; cases e; omega
+      exact ⟨1 - a, t, s, recover_active i (1 - a) (by omega) t s ho hoth, Or.inr hg,
+        ⟨by show 1 - a ≤ 1; omega, ho, hoth, h.intactG s hg, (fun _ _ ho => by cases ho), nofun⟩⟩
+
+/-- the two valid headers of an `ImgOk` image never carry the same transaction id -/
+theorem imgOk_no_tie {reachOf : Nat → List (Nat × Hash)} {a tx st : Nat} {g : Option Nat} (ha : a ≤ 1) {i : Img}
+    (h : ImgOk reachOf a tx st g i) (t0 s0 t1 s1 : Nat) (h0 : i.slots 0 = some (t0, s0))
+    (h1 : i.slots 1 = some (t1, s1)) : t0 ≠ t1 := by
+  have : a = 0 ∨ a = 1 := by omega
+  rcases this with rfl | rfl
+  · have := h.active; rw [h0] at this; cases this
+    rcases h.other t1 s1 h1 with h | ⟨h, _⟩ <;> omega
+  · have := h.active; rw [h1] at this; cases this
+    rcases h.other t0 s0 h0 with h | ⟨h, _⟩ <;> omega
+
+/-! ### the invariant gives `ImgOk` of the durable image and `POk` of everything pending -/
+
+theorem Safe.imgOk {reachOf : Nat → List (Nat × Hash)} {c : Cfg} (hs : Safe reachOf c) :
+    ImgOk reachOf c.aSlot c.aTx c.aSt c.inflight c.durable :=
+  ⟨hs.active, fun t s e => Or.inl (hs.other t s e), hs.intact, fun s h => (hs.infl s h).2⟩
+
+theorem Safe.pok {reachOf : Nat → List (Nat × Hash)} {c : Cfg} (hs : Safe reachOf c) :
+    ∀ op ∈ c.pending, POk reachOf c.aSlot c.aTx c.aSt c.inflight op := by
+  cases hi : c.inflight with
+  | none => intro op hop; exact Or.inl ⟨hs.quiet hi op hop, nofun⟩
+  | some st =>
+    obtain ⟨⟨old, hp, hold⟩, _⟩ := hs.infl st hi
+    intro op hop
+    rw [hp] at hop
+    rcases List.mem_append.mp hop with hop | hop
+    · refine Or.inl ⟨(hold op hop).1, ?_⟩
+      intro s e; cases e; exact (hold op hop).2
+    · simp only [List.mem_singleton] at hop; subst hop
+      exact Or.inr ⟨_, _, rfl, Or.inr ⟨rfl, rfl⟩⟩
+
+theorem Safe.crashOk {reachOf : Nat → List (Nat × Hash)} {c : Cfg} (hs : Safe reachOf c) {i : Img}
+    (hc : CrashImg c.durable c.pending i) : ImgOk reachOf c.aSlot c.aTx c.aSt c.inflight i :=
+  imgOk_crash hs.slotLe hc hs.imgOk hs.pok
+
 /-- the discipline preserves the invariant -/
 theorem safe_step (reachOf : Nat → List (Nat × Hash)) (c c' : Cfg) (op : TOp) (hs : Safe reachOf c)
     (h : c.step reachOf op = some c') : Safe reachOf c' := by
+  have hok := hs.crashOk (crashImg_foldl c.pending c.durable)
   obtain ⟨h1, h2, h3, h4, h5, h6⟩ := hs
   cases op with
   | write p hh =>
@@ -139,14 +314,15 @@ theorem safe_step (reachOf : Nat → List (Nat × Hash)) (c c' : Cfg) (op : TOp)
     split at h
     · rename_i hc
       simp only [Option.some.injEq] at h; subst h
-      simp only [Bool.and_eq_true, Option.isNone_iff_eq_none, List.isEmpty_iff, beq_iff_eq] at hc
-      obtain ⟨⟨⟨⟨_, _⟩, hs1⟩, ht⟩, hint⟩ := hc
+      simp only [Bool.and_eq_true, Option.isNone_iff_eq_none, List.all_eq_true, beq_iff_eq] at hc
+      obtain ⟨⟨⟨⟨hi, hall⟩, hs1⟩, ht⟩, hint⟩ := hc
       refine ⟨h1, h2, h3, h4, ?_, ?_⟩
       · intro hn; simp at hn
       · intro st' hst'
         simp only [Option.some.injEq] at hst'
         subst hst' hs1 ht
-        exact ⟨rfl, intactB_spec reachOf _ _ hint⟩
+        exact ⟨⟨c.pending, rfl, fun o ho => ⟨h5 hi o ho, pendClearB_spec _ o (hall o ho)⟩⟩,
+          intactB_spec reachOf _ _ hint⟩
     · simp at h
   | sync =>
     simp only [Cfg.step] at h
@@ -167,21 +343,17 @@ theorem safe_step (reachOf : Nat → List (Nat × Hash)) (c c' : Cfg) (op : TOp)
       · intro st hst; simp at hst
     | some st =>
       simp only [hi, Option.some.injEq] at h; subst h
-      obtain ⟨hp, hint⟩ := h6 st hi
+      rw [hi] at hok
+      obtain ⟨⟨old, hp, _⟩, _⟩ := h6 st hi
       have hsl : 1 - (1 - c.aSlot) = c.aSlot := by omega
       refine ⟨by show 1 - c.aSlot ≤ 1; omega, ?_, ?_, ?_, ?_, ?_⟩
       · show (c.pending.foldl applyOp c.durable).slots (1 - c.aSlot) = _
-        rw [hp]; simp [applyOp]
+        rw [hp, List.foldl_append]; simp [applyOp]
       · intro t s
         show (c.pending.foldl applyOp c.durable).slots (1 - (1 - c.aSlot)) = _ → _
-        rw [hp, hsl]
-        simp only [List.foldl_cons, List.foldl_nil, applyOp]
-        have : ¬ (c.aSlot = 1 - c.aSlot) := by omega
-        simp only [this, if_false, h2, Option.some.injEq, Prod.mk.injEq]
-        intro ⟨e, _⟩; show t < c.aTx + 1; omega
-      · intro p hh hm
-        show (c.pending.foldl applyOp c.durable).pages p = _
-        rw [hp]; simp only [List.foldl_cons, List.foldl_nil, applyOp]; exact hint p hh hm
+        rw [hsl, hok.active]
+        intro e; cases e; show c.aTx < c.aTx + 1; omega
+      · exact hok.intactG st rfl
       · intro _ o ho; simp at ho
       · intro st' hst'; simp at hst'
 
@@ -196,71 +368,12 @@ theorem safe_run (reachOf : Nat → List (Nat × Hash)) (ops : List TOp) : ∀ (
     | none => simp [hst] at h
     | some c1 => simp only [hst] at h; exact ih c1 c' (safe_step reachOf c c1 op hs hst) h
 
-/-- recovery on an image whose active slot holds (tx, st) and whose other slot is older or invalid -/
-theorem recover_active (i : Img) (a : Nat) (ha : a ≤ 1) (tx st : Nat) (h1 : i.slots a = some (tx, st))
-    (h2 : ∀ t s, i.slots (1 - a) = some (t, s) → t < tx) : recover i = some st := by
-  have : a = 0 ∨ a = 1 := by omega
-  rcases this with rfl | rfl
-  · simp only [Nat.sub_zero] at h2
-    unfold recover
-    rw [h1]
-    cases h : i.slots 1 with
-    | none => rfl
-    | some r => obtain ⟨t, s⟩ := r; have := h2 t s h; simp [this]
-  · simp only [Nat.sub_self] at h2
-    unfold recover
-    rw [h1]
-    cases h : i.slots 0 with
-    | none => rfl
-    | some r =>
-      obtain ⟨t, s⟩ := r
-      have := h2 t s h
-      have hn : ¬ tx < t := by omega
-      simp [hn]
-
 /-- the image invariant: every crash image of a safe configuration recovers to the committed state
     or to the state of the commit in progress, and that state is complete -/
 theorem safe_crash (reachOf : Nat → List (Nat × Hash)) (c : Cfg) (hs : Safe reachOf c) (i : Img)
     (hc : CrashImg c.durable c.pending i) :
     ∃ st, recover i = some st ∧ (st = c.aSt ∨ c.inflight = some st) ∧
-      ∀ p h, (p, h) ∈ reachOf st → i.pages p = some h := by
-  obtain ⟨h1, h2, h3, h4, h5, h6⟩ := hs
-  cases hi : c.inflight with
-  | none =>
-    have hq := h5 hi
-    have hsl : ∀ k, i.slots k = c.durable.slots k := fun k =>
-      crashImg_slots hc k (fun o ho => clearOf_not_hdr _ o (hq o ho) k)
-    refine ⟨c.aSt, ?_, Or.inl rfl, ?_⟩
-    · exact recover_active i c.aSlot h1 c.aTx c.aSt (by rw [hsl]; exact h2) (by intro t s; rw [hsl]; exact h3 t s)
-    · intro p hh hm
-      rw [crashImg_pages hc p (fun o ho => clearOf_not_touches _ o (hq o ho) p hh hm)]
-      exact h4 p hh hm
-  | some st =>
-    obtain ⟨hp, hint⟩ := h6 st hi
-    rw [hp] at hc
-    have hne : ¬ (c.aSlot = 1 - c.aSlot) := by omega
-    -- the three fates of the single pending header write
-    have hpages : ∀ q, i.pages q = c.durable.pages q := fun q =>
-      crashImg_pages hc q (by intro o ho; simp at ho; subst ho; simp [touches])
-    have hact : i.slots c.aSlot = some (c.aTx, c.aSt) := by
-      rw [crashImg_slots hc c.aSlot (by intro o ho; simp at ho; subst ho; simp [isHdrOn]; omega)]; exact h2
-    cases hc with
-    | keep hc' =>
-      cases hc'
-      refine ⟨st, ?_, Or.inr rfl, fun p hh hm => by rw [hpages]; exact hint p hh hm⟩
-      have hsl : 1 - (1 - c.aSlot) = c.aSlot := by omega
-      apply recover_active _ (1 - c.aSlot) (by omega) (c.aTx + 1) st
-      · simp [applyOp]
-      · intro t s; rw [hsl]; simp only [applyOp, hne, if_false, h2, Option.some.injEq, Prod.mk.injEq]
-        intro ⟨e, _⟩; omega
-    | drop hc' =>
-      cases hc'
-      exact ⟨c.aSt, recover_active _ c.aSlot h1 c.aTx c.aSt h2 h3, Or.inl rfl, h4⟩
-    | tear hc' =>
-      cases hc'
-      refine ⟨c.aSt, ?_, Or.inl rfl, fun p hh hm => by simp only [tearOp]; exact h4 p hh hm⟩
-      apply recover_active _ c.aSlot h1 c.aTx c.aSt
-      · simp only [tearOp, hne, if_false]; exact h2
-      · intro t s; simp [tearOp]
+      ∀ p h, (p, h) ∈ reachOf st → i.pages p = some h :=
+  recover_imgOk hs.slotLe (hs.crashOk hc)
 
 end TxVerif
